@@ -8,30 +8,32 @@ from lib import rbgen
 from lib.flow import Failure
 
 MANIFEST = {
-    "text": "Theorems C11_* (Coq): an independent fragment can reach other code only through ti's global state; three such "
+    "text": "Theorems C11_* (Coq): an independent fragment can reach other code only through ti's global state; four such "
             "channels are closed by theorems — a `[` that opens a line is read as preceded by a space for every parser state "
             "(never an index on the previous line's value), every conditional leaves every variable's type as it found it "
-            "(C10_restore), and no call alters an entry of the builtin table (C12's frame theorem). The property as a whole is "
+            "(C10_restore), no call alters an entry of the builtin table (C12's frame theorem), and a lambda inserted anywhere "
+            "before the last statement of a method body — at any depth of blocks, whatever it returns — leaves the method's type "
+            "unchanged (model of the parser's list of returned types, tied to ti by C15's return-collection correspondence; the "
+            "pinned code is a refuted variant). The property as a whole is "
             "run as a metamorphic test: fragments generated from the typed grammar with fresh names (conditionals on unions, "
-            "blocks with and without parameters, array literals opening a line, builtin calls on unions, a lambda with an "
-            "explicit return) are inserted at every kind of statement boundary that is not the end of a body — top level and "
+            "blocks with and without parameters, array literals opening a line, builtin calls on unions, lambdas with an "
+            "explicit return, one-line do...end blocks and `;`-separated statements) are inserted at every kind of statement boundary that is not the end of a body — top level and "
             "nested, in generated hosts (defs, classes, modules, blocks on union receivers) and at top-level boundaries of "
             "corpus programs — and a whole independent program is appended; every output line from outside the fragment must "
             "be unchanged up to the row shift.",
     "note": "Trusted: Coq kernel; the boundary finder (tree-based for generated hosts, conservative line heuristics for the "
             "corpus); the fragment generator's freshness discipline (prefix zf). The evaluator's other global state is covered "
             "by the metamorphic runs only.",
-    "technique": "Coq proof (three non-interference lemmas on the parser, narrowing and heap models); metamorphic insertion "
+    "technique": "Coq proof (four non-interference lemmas on the parser, narrowing, heap and return-collection models); metamorphic insertion "
                  "runs of ti",
 }
-REQUIRES = ["Model/Parser.v", "Model/Narrow.v", "Model/Heap.v"]
-RULE = ("hosts: generated programs (11 features) and corpus programs; per host up to 4 boundaries x 2 fragments out of 9 shapes, "
+REQUIRES = ["Model/Parser.v", "Model/Narrow.v", "Model/Heap.v", "Model/Returns.v"]
+RULE = ("hosts: generated programs (11 features) and corpus programs; per host up to 4 boundaries x 2 fragments out of 12 shapes, "
         "plus one appended independent program; non-trivial = the boundary is nested or the host has a statement of more than "
         "one line after it")
 TRUSTED = []
 ASSUMPTIONS = ["the fragment shares no user-defined name with the host, defines no class or method and reopens no builtin class"]
-PARTIAL = ["global evaluator state other than the three modelled channels: exploration only",
-           "a `return` inside a lambda in a method body counts as a return of the method (kept finding)"]
+PARTIAL = ["global evaluator state other than the modelled channels: exploration only"]
 
 
 def fragments(r):
@@ -47,6 +49,9 @@ def fragments(r):
         [f("zfh# = {a: 1, b: \"s\"}"), f("zfk# = zfh#[:a]"), f("zfh#[:c] = 1.5")],
         [f("[[1, \"a\"]].each do |zfp#, zfq#|"), f("  zfr# = zfq#"), "end"],
         [f("zfc# = true"), f("zfu# = zfc# ? [1] : (1..2)"), f("zfu#.each do |zfe#|"), f("  zfs# = zfe#"), "end", f("zft# = 1.to_s")],
+        [f("[1, 2].each do |zfv#| zfv#.to_s end")],
+        [f("zfa# = 1; zfb# = zfa#.to_s; zfg# = 2")],
+        [f("zfl# = ->(zfx#) { return zfx#.to_s }"), f("[1].each do |zfy#| zfz# = zfy#.to_s; end")],
     ])
 
 
@@ -99,20 +104,6 @@ def compare(part, name, host_lines, k, frag, indent, a_out, flags):
         part.agreed += 1
     else:
         diff = next(((x, y) for x, y in zip(want + [None] * len(got), got + [None] * len(want)) if x != y), None)
-        in_def = False
-        lvl = indent
-        for l in reversed(host_lines[:k]):
-            ind = (len(l) - len(l.lstrip())) // 2
-            if l.strip() and ind < lvl:
-                lvl = ind
-                if l.strip().startswith("def "):
-                    in_def = True
-                    break
-        if in_def and any("lambda" in l for l in frag) and any("return" in l for l in frag):
-            part.count("lambda_return_in_def")
-            part.failures.append(Failure("lambda_return_in_def", "a `return` inside a lambda written in a method body is added to the method's return type",
-                                         {"shape": "lambda with return inside a def", "example": src}))
-            return
         part.failures.append(Failure("fragment_changes_host", "inserting an independent fragment before line %d of %s changes a host line: %r -> %r" % (
             k + 1, name, diff[0], diff[1]), {"program": src, "host": "\n".join(host_lines) + "\n", "fragment": frag, "at_line": k + 1, "flags": list(flags)}))
 
@@ -201,15 +192,6 @@ def part_append_program(ctx, part):
 
 
 PARTS = [part_generated_hosts, part_corpus_hosts, part_append_program]
-
-LAMBDA_DEF = "def host(a)\n  zfl = lambda do |zfx|\n    return zfx.to_s\n  end\n  a\nend\ndbtp host(1)\n"
-
-
-def replay_finding(ctx, k):
-    if k["id"] == "C11-lambda-return":
-        return "Union<String Integer>" in run(LAMBDA_DEF).out
-    return None
-
 
 def replay(path):
     print(json.dumps(json.load(open(path)), indent=1)[:6000])
